@@ -43,6 +43,10 @@ Programs ==
      three2 |-> [cfg |-> Cf(2, None, None, FALSE), progs |-> <<<<I(1,1,1), G(2)>>, <<I(2,1,2), G(1)>>, <<I(3,1,1), SY>>>>],
      iax    |-> [cfg |-> Cf(2, None, None, FALSE),
                  progs |-> <<<<I(1,1,1), ADV(1), XA, G(1)>>, <<G(1), I(2,2,1), G(1)>>>>],
+     \* an insert caught between its map access and its send, beside a reader that sees the value,
+     \* a later invalidate_all and a maintenance run that finds the cache drained
+     iasy   |-> [cfg |-> Cf(2, None, None, FALSE),
+                 progs |-> <<<<I(1,1,1)>>, <<G(1), ADV(1), XA, SY, G(1), SY>>>>],
      farw   |-> [cfg |-> Cf(1, None, None, FALSE),
                  progs |-> <<<<I(1,1,1), SY, ADV(1), I(1,3,2), X(1), G(2)>>, <<G(2), SY, G(2)>>>>],
      farx   |-> [cfg |-> Cf(2, 1, None, FALSE),
@@ -68,7 +72,7 @@ Refill(s) ==
         s2 == FillUp([s1 EXCEPT !.now = s1.now + 3], 1, want)   \* beyond every expiry deadline in use
     IN [want |-> want, kept |-> Cardinality({k \in 1..want : Visible(s2, k) /\ s2.map[k].v = 900 + k})]
 
-SumRes(s) == SeqSum([j \in DOMAIN ResOf(s) |-> ResOf(s)[j].w])
+SumRes(s) == SeqSum([j \in DOMAIN ResOf(s) |-> ResOf(s)[j].tw])   \* the weights of the values held
 FinalOk(s) ==
     /\ s.ec = Len(ResOf(s)) /\ s.ws = SumRes(s)                       \* C10
     /\ s.cfg.cap # None => SumRes(s) <= s.cfg.cap                     \* C04
